@@ -614,7 +614,10 @@ fn format_call_expr(ctx: &FormatContext, plan: &FormatPlan, expr: &LuaCallExpr) 
 
     let (open, _) = paren_tokens(args_list.syntax());
     docs.extend(token_left_spacing_docs(plan, open.as_ref()));
-    if docs.is_empty() && ctx.config.spacing.space_before_call_paren {
+    // `f "x"` printed as `f("x")` (single_arg_call_parens = Always): the `(` is not in the source,
+    // so there is no token to look its spacing up for; it follows `space_before_call_paren` like
+    // the `(` of the next pass will.
+    if open.is_none() && ctx.config.spacing.space_before_call_paren {
         docs.push(ir::space());
     }
     let arg_docs = format_call_arg_list(ctx, plan, &args_list);
